@@ -428,6 +428,10 @@ def requery_cases(tier):
     return requery.cases(max_ops=6, max_nodes=8, kinds=["add_node", "add_node", "add", "remove", "set_data", "rename", "move", "del", "copy_to"], big=(20, 41))
 
 
+# (what round 8 added to the case domain; part of the evidence text)
+RULE_ROUND8 = ' One generated forest in 20 (60 in the thorough tier) is a BIG one (gen.big_specs: a child list of 11..300 nodes, that many clones of one data object, more than 256 nodes), with node references aimed at notable positions of the long child lists. (width <= 41). Index access also with int-subclass keys and bools.'
+RULE = RULE + RULE_ROUND8
+
 PARTS = [
     Part("queries", run, strategy=lambda tier: hyp_cases(tier), n={"quick": 500, "thorough": 100000}),
     Part("callback-ids-typed", run, strategy=lambda tier: flavour_cases(tier), n={"quick": 200, "thorough": 20000}),
